@@ -36,7 +36,7 @@ ASSUMPTIONS = [
     "Dataset.copy() / inplace=False results are not required to keep appended-but-unused axes",
 ]
 MANDATORY = ["op:set-new", "op:set-replace", "op:reject", "op:del", "op:rename_ds", "op:rename_var", "op:dims", "op:set_axis", "op:axes_set",
-             "op:axes_set_int", "op:axes_set_renamed", "op:label", "op:append", "op:rename_keys", "op:rename_axes", "op:copy",
+             "op:axes_set_int", "op:axes_set_renamed", "op:label", "op:append", "op:rename_keys", "op:rename_axes", "op:copy", "op:derive",
              "start:constructed", "reject-after-accept", "replace-changes-dims", "axis-change-with-2-users", "reject:new-dim-first"]
 
 NAMES = ["x", "y", "z", "w"]
@@ -44,7 +44,7 @@ FRESH = ["p", "q", "r", "s", "u", "v", "g", "h"]
 VARS = ["a", "b", "c", "d"]
 LABPOOL = {"i": [3, 1, 2, 7, 5], "f": [0.5, 2.5, 1.5, 4.0], "s": ["k", "m", "l", "n"]}
 OPS = ["set", "set", "set", "set", "reject", "reject", "del", "rename_ds", "rename_var", "dims", "set_axis", "axes_set", "axes_set_int",
-       "axes_set_renamed", "label", "append", "rename_keys", "rename_axes", "copy"]
+       "axes_set_renamed", "label", "append", "rename_keys", "rename_axes", "copy", "derive"]
 
 
 def budget(tier):
@@ -385,6 +385,30 @@ def run_case(case):
                 lib(lambda: ds.rename_keys({k: new}), what=what + " rename_keys({%s: %s})" % (k, new), sig=sig)
                 m.vars = collections.OrderedDict(list((kk, vv) for kk, vv in m.vars.items() if kk != k) + [(new, m.vars[k])])
             cl.add("op:rename_keys")
+        elif op == "derive":
+            # continue the history on a dataset *returned* by a dataset-wide operation (take_axis with a permutation / sort_axis)
+            if not m.axes:
+                continue
+            d = list(m.axes)[a % len(m.axes)]
+            labs = m.axes[d]
+            n = len(labs)
+            if n == 0 or len({type(x) is str for x in labs}) > 1:
+                continue
+            if b % 2:
+                perm = sorted(range(n), key=lambda i: labs[i])
+                old_ds = ds
+                ds = lib(lambda: old_ds.sort_axis(axis=d), what=what + " ds = ds.sort_axis(%r)" % d, sig=sig)
+            else:
+                perm = [(i + 1 + c) % n for i in range(n)]
+                perm = perm if len(set(perm)) == n else list(range(n))
+                old_ds = ds
+                ds = lib(lambda: old_ds.take_axis(list(perm), axis=d, indexing="position"), what=what + " ds = ds.take_axis(%s, %r)" % (perm, d), sig=sig)
+            compare(old_ds, m, what + " [source dataset after the derivation]", sig)
+            m.axes[d] = [labs[i] for i in perm]
+            for k2, (dd, v) in list(m.vars.items()):
+                if d in dd:
+                    m.vars[k2] = (dd, np.take(v, perm, axis=dd.index(d)))
+            cl.add("op:derive")
         elif op == "copy":
             old_ds = ds
             ds = lib(lambda: old_ds.copy(), what=what + " ds.copy()", sig=sig)
